@@ -286,6 +286,11 @@ class Folder:
             vals = [f(a) for a in args]
             if all(isinstance(v, int) for v in vals):
                 return range(*vals)
+        if name in ("any", "all") and len(args) == 1 and not node.keywords:
+            v0 = f(args[0])
+            if isinstance(v0, (list, tuple, set, frozenset)):
+                return any(v0) if name == "any" else all(v0)
+            raise Unknown(name)
         if name in ("len", "min", "max", "sum", "int", "bytes", "bool", "abs", "str") and args and not node.keywords:
             vals = [f(a) for a in args]
             try:
